@@ -181,6 +181,8 @@ def run(ctx):
                 yield G.random_tree(rng)
             for _ in range(n2 // 2):
                 yield extreme_constant(rng)
+            for _ in range(n2 // 4):
+                yield G.near_miss(rng)
         for name, tree in stream():
             ctx.count()
             dist[name] += 1
